@@ -36,6 +36,7 @@ const KEY_LENIENT_RANGE_ESCAPE: &str = "C16:lenient-range-bound-escape-differs";
 const KEY_BOOST_SKIP: &str = "C16:rewrite-skips-boosted-group";
 const KEY_RANGE_SEEK_OVERFLOW: &str = "C16:search-range-docset-seek-danger-overflow";
 const KEY_LENIENT_NEG_SUFFIX: &str = "C16:lenient-negative-number-with-suffix";
+const KEY_PREFIX_GAP: &str = "C16:phrase-prefix-gap-before-prefix-term-ignored";
 const KEY_SET_LOOP: &str = "C16:lenient-set-unicode-space-loop";
 
 // ------------------------------------------------------------------------------------------
@@ -104,12 +105,38 @@ fn gen_sem_leaf(rng: &mut Rng) -> LeafSpec {
     match rng.below(100) {
         0..=29 => {
             // word on a text field or the default fields
-            let field = *rng.pick(&[None, None, Some(F_TITLE), Some(F_BODY), Some(F_TAG), Some(F_JSK), Some(F_JSAB)]);
+            let field = *rng.pick(&[None, None, Some(F_TITLE), Some(F_BODY), Some(F_TAG), Some(F_JSK), Some(F_JSAB), Some(F_STOP)]);
             let lit = typed_lit(rng, field.unwrap_or(F_TITLE));
             let delim = delim_for(rng, field, &lit.text);
             // `a~2` unquoted is the word "a~2": slop only after a quoted literal
             let slop = if delim != Delim::None && rng.chance(1, 6) { 2 } else { 0 };
             LeafSpec::Lit { field, lit, delim, slop }
+        }
+        30..=44 if rng.chance(2, 5) => {
+            // a phrase on the stop-word field: the analyzer drops `the` / `of` but keeps their positions
+            let pick = |rng: &mut Rng, stop: bool| if stop { rng.pick(STOP_WORDS).to_string() } else { rng.pick(WORDS).to_string() };
+            let mut words: Vec<String> = vec![];
+            if rng.chance(1, 6) {
+                words.push(pick(rng, true));
+            }
+            words.push(pick(rng, false));
+            // dropped tokens strictly between kept ones (0..2 of them)
+            for _ in 0..rng.below(3) {
+                words.push(pick(rng, true));
+            }
+            words.push(pick(rng, false));
+            let (slop, prefix) = match rng.below(4) {
+                0 => (1 + rng.below(3) as u32, false),
+                1 => (0, true),
+                _ => (0, false),
+            };
+            if slop == 0 && rng.chance(1, 3) {
+                if rng.chance(1, 2) {
+                    words.push(pick(rng, true));
+                }
+                words.push(pick(rng, false));
+            }
+            LeafSpec::Phrase { field: Some(F_STOP), words, delim: *rng.pick(&[Delim::Double, Delim::Double, Delim::Single]), slop, prefix }
         }
         30..=44 => {
             let field = *rng.pick(&[None, Some(F_TITLE), Some(F_BODY)]);
@@ -556,7 +583,10 @@ struct World {
     parser_and: QueryParser,
 }
 
-fn build_world(rng: &mut Rng, ndocs: usize) -> World {
+/// the typed schema and an empty in-RAM index with the stop-word analyzer registered
+fn new_index() -> (Schema, Index) {
+    use tantivy::schema::{IndexRecordOption, TextFieldIndexing, TextOptions};
+    use tantivy::tokenizer::{LowerCaser, SimpleTokenizer, StopWordFilter, TextAnalyzer};
     let mut sb = Schema::builder();
     sb.add_text_field("title", TEXT | STORED);
     sb.add_text_field("body", TEXT);
@@ -571,11 +601,28 @@ fn build_world(rng: &mut Rng, ndocs: usize) -> World {
     sb.add_facet_field("cat", tantivy::schema::FacetOptions::default());
     sb.add_json_field("js", TEXT);
     sb.add_u64_field("id", FAST | STORED);
+    // an analyzer that drops tokens but keeps positions: a phrase must keep the gap
+    let stop_opts = TextOptions::default().set_indexing_options(TextFieldIndexing::default().set_tokenizer("stopw").set_index_option(IndexRecordOption::WithFreqsAndPositions));
+    sb.add_text_field("stop", stop_opts);
     let schema = sb.build();
     let index = Index::create_in_ram(schema.clone());
-    let mut w: IndexWriter = index.writer_with_num_threads(1, 20_000_000).unwrap();
+    let analyzer = TextAnalyzer::builder(SimpleTokenizer::default())
+        .filter(LowerCaser)
+        .filter(StopWordFilter::remove(STOP_WORDS.iter().map(|w| w.to_string()).collect::<Vec<_>>()))
+        .build();
+    index.tokenizers().register("stopw", analyzer);
+    (schema, index)
+}
+
+fn build_world(rng: &mut Rng, ndocs: usize) -> World {
     let docs: Vec<DocRec> = (0..ndocs).map(|_| gen_doc(rng)).collect();
     let cut = if rng.chance(1, 2) { ndocs / 2 } else { ndocs };
+    build_world_docs(docs, cut)
+}
+
+fn build_world_docs(docs: Vec<DocRec>, cut: usize) -> World {
+    let (schema, index) = new_index();
+    let mut w: IndexWriter = index.writer_with_num_threads(1, 20_000_000).unwrap();
     for (i, d) in docs.iter().enumerate() {
         let doc = TantivyDocument::parse_json(&schema, &d.to_json(i as u64).to_string()).expect("doc json");
         w.add_document(doc).unwrap();
